@@ -63,12 +63,15 @@ PROPS = {
     "C11": {
         "props": "TrackVerif.Conv.PropsC11",
         "streams": [("CV", 1200, 15000)],
-        "clauses": ["cv.convert", "cv.no_crash"],
+        "clauses": ["cv.convert", "cv.no_crash", "cv.predictor_value"],
         "rule": "as C03, with OBD columns in 3 of 4 sessions, arbitrary interleavings of GPS-update and OBD-update rows, channel subsets, predictors "
-                "{default, PiecewiseLinear, PiecewiseConstant, nil}; fixed corpus: no OBD columns, never-updating OBD, a two-reading interpolation; "
+                "{default, PiecewiseLinear, PiecewiseConstant, a non-interpolating harness predictor, nil}; one case in six runs Session.PredictOBD with gonum's "
+                "Akima / Fritsch-Butland / natural / clamped / not-a-knot cubic predictors against a predictor of the same type fitted per channel (oracle on the implementation side); "
+                "converters and sessions are reused within a case; fixed corpus: no OBD columns, never-updating OBD, a two-reading interpolation; "
                 "non-trivial = at least one converted lap",
         "trusted_base": KERNEL + TIE + ["gonum interp.PiecewiseLinear/PiecewiseConstant are modelled (Fit panics for < 2 or non-increasing xs; Predict as read from the vendored source)",
-                                        "reflection loops of OBD.appendValues/OBD.set are modelled as 'non-nil channels in field order'"],
+                                        "reflection loops of OBD.appendValues/OBD.set are modelled as 'non-nil channels in field order'",
+                                        "gonum's cubic predictors are not modelled: for them the harness is the oracle (same type, fitted to one channel's readings alone; bit-equal values)"],
         "assumptions": ["rows before the first fresh reading and channel sets that vary between rows are outside the modelled domain (driver answers SKIP)",
                         "linear_between/linear_at_knot are proved for exact rationals"],
     },
